@@ -33,7 +33,15 @@ GROUNDED = {
     'sloping_branch': (dict(G=(0, 0, 0), A=(0.06, 0.03, 0.15), B=(0.2, 0.03, 0.17), C=(0.0, 0.14, 0.2)),
                        [('G', 'A', 3), ('A', 'B', 3), ('A', 'C', 3)]),
     'horizontal_over_ground': (dict(A=(-0.12, 0, 0.1), B=(0.13, 0, 0.1)), [('A', 'B', 6)]),
+    # the foot point height is zero only up to a (positive) rounding error
+    'computed_zero_foot': (dict(G=(0.05, 0, (0.1 + 0.2 - 0.3) / 20.0), A=(0.05, 0.02, 0.17), B=(0.2, 0.02, 0.19)),
+                           [('G', 'A', 3), ('A', 'B', 3)]),
 }
+TINY = 1e-9
+
+
+def is_gnd(xyz):
+    return abs(xyz[2]) < TINY
 RADIUS = 3e-4
 
 
@@ -45,16 +53,39 @@ def tol_for(cond):
     return None
 
 
+def gids(points):
+    ids = {}
+    nf = ng = 0
+    for name, xyz in points.items():
+        if is_gnd(xyz):
+            ng += 1
+            ids[name] = 100 + ng
+        else:
+            nf += 1
+            ids[name] = nf
+    return ids
+
+
 def ground_input(points, wires, perm, dirs):
-    ids = D.point_ids(points, True)
+    ids = gids(points)
     inp, geo = [], []
     for w in perm:
         a, b, ns = wires[w]
         if dirs[w] < 0:
             a, b = b, a
         inp.append(dict(p1=ids[a], p2=ids[b], ns=ns, tag=0))
-        geo.append((np.array(points[a], float), np.array(points[b], float), ns))
+        geo.append((np.array(points[a], float), np.array(points[b], float), ns, taper_type(points, a, b)))
     return inp, geo
+
+
+def taper_type(points, a, b):
+    """segmentation type that tapers a grounded wire towards its free end (first and last segment
+       differ, the ground pulse sits on the long segment), 0 for wires that do not touch the ground"""
+    if is_gnd(points[a]):
+        return 2
+    if is_gnd(points[b]):
+        return 1
+    return 0
 
 
 def mirror_input(points, wires, perm, dirs, straight=False):
@@ -63,15 +94,18 @@ def mirror_input(points, wires, perm, dirs, straight=False):
     ids = {n: i + 1 for i, n in enumerate(names)}
     nid = len(names)
     for n in names:
-        if points[n][2] != 0:
+        if not is_gnd(points[n]):
             nid += 1
             ids[n + "'"] = nid
         else:
             ids[n + "'"] = ids[n]
     coords = {}
     for n in names:
-        coords[ids[n]] = np.array(points[n], float)
-        coords[ids[n + "'"]] = np.array(points[n], float) * np.array([1, 1, -1])
+        c = np.array(points[n], float)
+        if is_gnd(c):
+            c[2] = 0.0              # the free-space model has the foot point exactly on the plane
+        coords[ids[n]] = c
+        coords[ids[n + "'"]] = c * np.array([1, 1, -1])
     inp, geo = [], []
     done_img = set()
     for w in perm:
@@ -79,17 +113,17 @@ def mirror_input(points, wires, perm, dirs, straight=False):
         if dirs[w] < 0:
             a, b = b, a
         vertical = points[a][0] == points[b][0] and points[a][1] == points[b][1]
-        touches = points[a][2] == 0 or points[b][2] == 0
+        touches = is_gnd(points[a]) or is_gnd(points[b])
         if straight and vertical and touches:
             # one straight wire of 2n segments through the plane
-            top = b if points[a][2] == 0 else a
-            p, q = (top + "'", top) if points[a][2] == 0 else (top, top + "'")
+            top = b if is_gnd(points[a]) else a
+            p, q = (top + "'", top) if is_gnd(points[a]) else (top, top + "'")
             inp.append(dict(p1=ids[p], p2=ids[q], ns=2 * ns, tag=0))
-            geo.append((coords[ids[p]], coords[ids[q]], 2 * ns))
+            geo.append((coords[ids[p]], coords[ids[q]], 2 * ns, 0))
             done_img.add(w)
         else:
             inp.append(dict(p1=ids[a], p2=ids[b], ns=ns, tag=0))
-            geo.append((coords[ids[a]], coords[ids[b]], ns))
+            geo.append((coords[ids[a]], coords[ids[b]], ns, taper_type(points, a, b)))
     for w in perm:
         if w in done_img:
             continue
@@ -97,12 +131,17 @@ def mirror_input(points, wires, perm, dirs, straight=False):
         if dirs[w] < 0:
             a, b = b, a
         inp.append(dict(p1=ids[a + "'"], p2=ids[b + "'"], ns=ns, tag=0))
-        geo.append((coords[ids[a + "'"]], coords[ids[b + "'"]], ns))
+        geo.append((coords[ids[a + "'"]], coords[ids[b + "'"]], ns, taper_type(points, a, b)))
     return inp, geo
 
 
-def build(geo, ground):
-    ws = [Wire(ns, *(a * LAM), *(b * LAM), RADIUS * LAM) for a, b, ns in geo]
+def build(geo, ground, taper=False):
+    ws = []
+    for a, b, ns, st in geo:
+        w = Wire(ns, *(a * LAM), *(b * LAM), RADIUS * LAM)
+        if taper and st:
+            w.segtype = st
+        ws.append(w)
     return Mininec(F, ws, media=[ideal_ground] if ground else None)
 
 
@@ -155,14 +194,15 @@ def correspondence(mg, mf):
 
 
 def check_case(args):
-    name, perm, dirs, straight, sd = args
+    name, perm, dirs, straight, sd = args[:5]
+    taper = len(args) > 5 and args[5]
     out = dict(mism=[], exc=None, n=0, skipped=0, maxdev=0.0)
     try:
         points, wires = GROUNDED[name]
         gi, gg = ground_input(points, wires, perm, dirs)
         fi, fg = mirror_input(points, wires, perm, dirs, straight)
-        mg0 = build(gg, True)
-        mf0 = build(fg, False)
+        mg0 = build(gg, True, taper)
+        mf0 = build(fg, False, taper)
         cor = correspondence(mg0, mf0)
         if cor is None:
             out['mism'].append(dict(what='no-pulse-bijection'))
@@ -177,8 +217,8 @@ def check_case(args):
             a, b = rnd.sample(range(N), 2) if N >= 2 else (0, 0)
             feeds.append([(a, 1 + 0j), (b, complex(rnd.uniform(-1, 1), rnd.uniform(-1, 1)))])
         for feed in feeds:
-            mg = build(gg, True)
-            mf = build(fg, False)
+            mg = build(gg, True, taper)
+            mf = build(fg, False, taper)
             for q, v in feed:
                 mg.register_source(Excitation(complex(v)), q)
                 fq, s, iq, si = cor[q]
@@ -241,6 +281,9 @@ def run(tier):
                 cases.append((name, perm, dirs, False, C.seed()))
         cases.append((name, tuple(range(n)), (1,) * n, True, C.seed()))
         cases.append((name, tuple(range(n)), (-1,) * n, True, C.seed()))
+        # grounded wires tapered towards their free end (unequal first / last segment)
+        cases.append((name, tuple(range(n)), (1,) * n, False, C.seed(), True))
+        cases.append((name, tuple(range(n)), (-1,) * n, False, C.seed(), True))
     # specification records for both models of every case
     gin = [ground_input(*GROUNDED[c[0]], c[1], c[2])[0] for c in cases]
     fin = [mirror_input(*GROUNDED[c[0]], c[1], c[2], c[3])[0] for c in cases]
@@ -252,8 +295,8 @@ def run(tier):
             chk.violation(dict(kind='spec-pulse-count-relation', structure=c[0]), dict(case=c[:4]))
     outs = C.parallel_map(check_case, cases, chunksize=1)
     for c, o in zip(cases, outs):
-        chk.case(dict(c=c[:4]), True, sample=dict(structure=c[0], order=c[1], directions=c[2],
-                                                  straight_variant=c[3], feeds=o['n'], max_deviation=o['maxdev']),
+        chk.case(dict(c=list(c[:4]) + [len(c) > 5]), True, sample=dict(structure=c[0], order=c[1], directions=c[2],
+                                                  straight_variant=c[3], tapered=len(c) > 5, feeds=o['n'], max_deviation=o['maxdev']),
                  n=max(1, o['n']))
         chk.traces += 1
         if o['skipped']:
@@ -262,7 +305,7 @@ def run(tier):
             chk.violation(dict(kind='exception', structure=c[0], exc=o['exc'].split('(')[0]), dict(case=c[:4], exc=o['exc']))
         for mm in o['mism']:
             chk.violation(dict(kind=mm['what'], structure=c[0], grounded_feed=mm.get('grounded_feed')),
-                          dict(case=c[:4], info=mm))
+                          dict(case=c[:4], tapered=len(c) > 5, info=mm))
     return chk.finish(
         rule='one case per (structure, wire order, direction choice, mirror variant); evaluations = feed sets solved on both '
              'models (every single pulse incl. ground pulses, two two-source sets); every case is non-trivial')
@@ -271,6 +314,6 @@ def run(tier):
 def replay(path):
     d = json.load(open(path))['detail']
     c = d['case']
-    o = check_case((c[0], tuple(c[1]), tuple(c[2]), c[3], C.seed()))
+    o = check_case((c[0], tuple(c[1]), tuple(c[2]), c[3], C.seed()) + ((True,) if d.get('tapered') else ()))
     print(json.dumps(o, indent=1, default=str))
     return 1 if (o['mism'] or o['exc']) else 0
